@@ -145,7 +145,10 @@ def run(ctx):
             # always include the historical witnesses, then a seeded sample
             # download faults in all four (pair, kp_reuse) combinations, and a finalize error, always
             must = [s for s in flowgrid.grid() if s["fault"].startswith("cert-")
-                    or (s["fault"] in ("err:badCSR", "drop") and s["pos"][0] == "finalize")]
+                    or (s["fault"] in ("err:badCSR", "drop") and s["pos"][0] == "finalize")
+                    # redirections: a followed GET chain, and 3xx answers to the POSTs around the installation
+                    or (s["fault"].startswith("redirect-") and s["pos"][0] in ("directory", "finalize", "cert")
+                        and s["pair"] and not s["kp_reuse"])]
             g = must + g[:100]
         scs = [dict(s, idx=i) for i, s in enumerate(corpus + g)]
         with concurrent.futures.ThreadPoolExecutor(max_workers=12) as ex:
